@@ -45,7 +45,10 @@ RULE = ("sequences of 1..20 datagrams to one of five entry points (advertisement
         "non-trivial = at least one datagram was dispatched (callback, send, timer or device change); distinct = distinct driver text")
 EXHAUSTIVE = {"quick": False, "thorough": False}
 ASSUMPTIONS = [
-    "MX, CACHE-CONTROL and ST values are ASCII (Python int(), \\d, \\s and str.lower accept more on non-ASCII text; such datagrams are not generated)",
+    "MX and CACHE-CONTROL values are ASCII in the compared stream: Python int(), \\d and \\s accept ~650 non-ASCII digits and 17 non-ASCII blanks; "
+    "such values (family x:unicode-*) are run against the real code on every run and judged for 'no raise' only (flag x: outside the model)",
+    "ST / USN / NT / NTS / MAN may be any text: str.lower() is modelled by ASCII lower-casing plus U+212A KELVIN SIGN -> k, the only non-ASCII "
+    "character whose lower-case form is pure ASCII (enumerated over all code points at the start of every run); device UDNs and types are ASCII",
     "a LOCATION outside the modelled URL grammar from a scoped IPv6 sender is compared only for raise/no-raise; the model then adopts the implementation's tracker state",
     "whether ssdp:alive of an already known device notifies is C04's concern: the model allows 0 or 1 callback there",
     "datetime.now is a virtual clock (ssdp.datetime patched); the responder's event loop is a stub that records call_at",
@@ -58,7 +61,7 @@ EPS = ["adv", "search", "ladv", "lsearch", "resp"]
 ROOT_UDN = "uuid:00000000-0000-0000-0000-0000000000a1"
 EMB_UDN = "uuid:00000000-0000-0000-0000-0000000000a2"
 ROOT_TYPE = "urn:schemas-upnp-org:device:MediaServer:2"
-EMB_TYPE = "urn:schemas-upnp-org:device:Embedded:1"
+EMB_TYPE = "urn:schemas-upnp-org:device:Speaker:1"   # has a `k`: U+212A KELVIN SIGN in ST lower-cases onto it
 SVC_TYPES = ["urn:schemas-upnp-org:service:ContentDirectory:3", "urn:schemas-upnp-org:service:AVTransport:1"]
 
 
@@ -252,7 +255,8 @@ def run_recipe(ctx: Ctx, recipe: Dict[str, Any], cid: str) -> Case:
             timers = len(env.stub.timers) - t0
             devs = lst(f"{ts(k)}={us(v.valid_to)}" for k, v in tracker.devices.items())
             nx = tracker.next_valid_to
-            lines.append(f"dg {ep} {tb(data)} {tok_addr(src)} {tok_addr(local) if local else 'N'} {env.clock}")
+            outside = " x" if (tag or "").startswith("x:") or not in_model(data) else ""
+            lines.append(f"dg {ep} {tb(data)} {tok_addr(src)} {tok_addr(local) if local else 'N'} {env.clock}{outside}")
             lines.append(f"eff raised={raised} cb={cbn} sends={sends} timers={timers} devs={devs} "
                          f"next={'N' if nx is None else us(nx)} before={lst(ts(k) for k in before)} "
                          f"after={lst(ts(k) for k in sorted(tracker.devices))}")
@@ -328,6 +332,10 @@ def msearch(st: str, mx: Optional[str], man: str = DISCOVER, extra=()) -> bytes:
     return pkt("M-SEARCH * HTTP/1.1", hs)
 
 
+KELVIN = "\u212a"
+STS_UNICODE = [EMB_TYPE.replace("k", KELVIN), EMB_TYPE.replace("k", KELVIN).upper(), "urn:schemas-upnp-org:device:Spea\u212aer:0",
+               "ssdp:a\u0130l", "ssdp:\u00c5ll", "upnp:rootdev\u0130ce", "upnp:rootdev\u0131ce", "UPNP:ROOTDEVICE\u212a", "ssdp:all\u00a0",
+               ROOT_UDN.replace("a1", "\uff41\uff11"), "\u212a", "uu\u0130d:x"]
 STS = ["ssdp:all", "upnp:rootdevice", ROOT_UDN, EMB_UDN.upper(), ROOT_TYPE, ROOT_TYPE[:-1] + "1", ROOT_TYPE[:-1] + "3", EMB_TYPE,
        SVC_TYPES[0], SVC_TYPES[0][:-1] + "0", SVC_TYPES[1].upper(), "urn:foreign:device:X:1", "uuid:unknown", "", "ssdp:ALL", ROOT_TYPE[:-2]]
 
@@ -345,14 +353,14 @@ def valid_datagram(rng) -> bytes:
         return notify("ssdp:byebye", udn, typ, None if rng.random() < 0.7 else loc, None)
     if c < 8:
         return response(udn, typ, loc, cc)
-    return msearch(rng.choice(STS), rng.choice(["1", "2", "5", None, "0"]))
+    return msearch(rng.choice(STS + STS_UNICODE), rng.choice(["1", "2", "5", None, "0"]))
 
 
-ASCII_ONLY = re.compile(rb"^(mx|cache-control|st)\s*:(.*)$", re.I | re.M)
+ASCII_ONLY = re.compile(rb"^(mx|cache-control)\s*:(.*)$", re.I | re.M)
 
 
 def in_model(data: bytes) -> bool:
-    """MX / CACHE-CONTROL / ST values must be ASCII (see ASSUMPTIONS)"""
+    """MX / CACHE-CONTROL values must be ASCII (see ASSUMPTIONS); everything else may be any text"""
     for m in ASCII_ONLY.finditer(data.replace(b"\r\n", b"\n")):
         if any(b > 127 for b in m.group(2)):
             return False
@@ -448,6 +456,25 @@ def targeted(rng) -> List[tuple]:
                 out.append(("resp-startline", pkt(sl, hs), None))
     for man in ("ssdp:discover", '"ssdp:discover" ', '"SSDP:DISCOVER"', "", '"ssdp:discover"x'):
         out.append(("resp-man", msearch("ssdp:all", "0", man=man), None))
+    # non-ASCII text where the code lower-cases or compares: ST (str.lower, U+212A -> k), USN prefix, NT / NTS / MAN
+    for st in STS_UNICODE:
+        out.append(("unicode-st", msearch(st, rng.choice(["0", "2"])), None))
+    for usn in ("uu\u0130d:dev-1::x", "UU\u0131D:dev-1", "\u212auid:dev-1", "uuid:\u212a::upnp:rootdevice", "uuid:dev-\u0130", "\uff55uid:dev-1"):
+        hs = [["NT", typ], ["NTS", "ssdp:alive"], ["USN", usn], ["LOCATION", loc]]
+        out.append(("unicode-usn", pkt("NOTIFY * HTTP/1.1", hs), None))
+        out.append(("unicode-usn", pkt("HTTP/1.1 200 OK", [["ST", typ], ["USN", usn], ["LOCATION", loc]]), None))
+    for nts in ("ssdp:al\u0130ve", "ssdp:alive\u00a0", "SSDP:ALIVE", "ssdp:\u212a", "ssdp:bye\u0062ye\u0301"):
+        out.append(("unicode-nts", pkt("NOTIFY * HTTP/1.1", [["NT", "upnp:rootdevice\u212a"], ["NTS", nts], ["USN", "uuid:dev-1"], ["LOCATION", loc]]), None))
+    for man in ("\u201cssdp:discover\u201d", '"ssdp:d\u0130scover"', '"ssdp:discover"\u00a0', '"SSDP:DISCOVER\u212a"'):
+        out.append(("unicode-man", msearch("ssdp:all", "0", man=man), None))
+        out.append(("unicode-man", pkt("NOTIFY * HTTP/1.1", [["MAN", man], ["NT", typ], ["NTS", "ssdp:alive"], ["USN", "uuid:dev-1"], ["LOCATION", loc]]), None))
+    # excluded points (ASSUMPTIONS): non-ASCII digits / blanks in MX and CACHE-CONTROL are run against the real code,
+    # judged for "no raise" only (flag x: outside the model)
+    for mx in ("\u0661", "\u0661\u0662", "\uff15", "\u00a02\u2003", "\u0967_\u0967", "-\u0663", "\u00b2", "\u2164"):
+        out.append(("x:unicode-mx", msearch("ssdp:all", mx), None))
+    for cc in ("max-age=\u0661\u0662", "max-age\u00a0=\u20035", "max-age=\uff11" + "\u0669" * 30, "max-age=" + "\u0660" * 4301, "max-age=\u00b9", "MAX-AGE=\u0e51"):
+        out.append(("x:unicode-max-age", notify("ssdp:alive", udn, typ, loc, cc), None))
+        out.append(("x:unicode-max-age", response(udn, typ, loc, cc), None))
     # metadata spoofing: `_udn` without a USN reaches `_see_device`
     for kind in ("alive", "search", "byebye"):
         hs = [["_udn", "uuid:spoof"], ["LOCATION", loc], ["NT", typ], ["ST", typ], ["NTS", "ssdp:" + ("byebye" if kind == "byebye" else "alive")]]
@@ -534,7 +561,7 @@ def gen_part(ctx: Ctx, kind: str, n: int, prefix: str) -> List[Case]:
         fam = targeted(rng)
         for _ in range(n):
             for tag, data, src in fam:
-                if not in_model(data):
+                if not in_model(data) and not tag.startswith("x:"):
                     continue
                 for ep in EPS:
                     s = src or rng.choice(SRCS)
@@ -618,7 +645,17 @@ def _worker(args) -> List[Case]:
     return gen_part(ctx, kind, n, prefix)
 
 
+def lower_to_ascii() -> List[int]:
+    """every non-ASCII code point whose str.lower() is pure ASCII (the model's `lowerPy` knows exactly these)"""
+    import sys
+
+    return [c for c in range(128, sys.maxunicode + 1) if chr(c).lower().isascii()]
+
+
 def generate(ctx: Ctx) -> List[Case]:
+    got = lower_to_ascii()
+    if got != [0x212A]:
+        raise RuntimeError(f"Python's str.lower maps other non-ASCII characters onto ASCII than the model assumes: {[hex(c) for c in got]}")
     cases: List[Case] = []
     for i, rec in enumerate(CORPUS):
         cases.append(run_recipe(ctx, rec, f"corpus{i}"))
